@@ -119,6 +119,11 @@ func c15Judge(rules []*grl.Rule, cause error, tr *hx.Trace) (sig, what string, n
 		// comes during the actions of a rule is followed by at least the decision whether anything is left to do
 		return "C15:nil-return-after-cancellation-during-actions", fmt.Sprintf("the context flipped during the actions of %s, yet Execute returned nil instead of the context's error (events %v)", executing, tr.Events), true
 	}
+	if flip > 0 && (tr.Events[flip-1][0] == 'B' || tr.Events[flip-1][0] == 'V') {
+		// the flip came inside a listener callback of the evaluation phase: the engine polls the context again before it
+		// decides anything (before the next rule, after the last one), whether or not any rule is active
+		return "C15:nil-return-after-cancellation-in-a-listener-callback", fmt.Sprintf("the context flipped inside the callback %s, yet Execute returned nil instead of the context's error (events %v)", tr.Events[flip-1], tr.Events), true
+	}
 	if len(tr.FinalCands) > 0 {
 		return "C15:nil-return-despite-cancellation-with-work-left", fmt.Sprintf("context flipped during the run, rules %v are satisfied on the final facts, yet Execute returned nil (events %v)", tr.FinalCands, tr.Events), true
 	}
